@@ -424,6 +424,25 @@ def tr_ctc(tc):
     return rnd
 
 
+def tr_restricted(repo):
+    """StatementBuilder::collectDependencies(set, expression) and TypeChecker::visitProcess' use of `restricted`."""
+    sb = read(repo, "src/StatementBuilder.cpp")
+    body = norm(function_body(sb, r"void\s+StatementBuilder::collectDependencies\s*\(\s*std::set<symbol_t>&\s*dependencies\s*,\s*expression_t\s+expr\s*\)\s*\{",
+                              "StatementBuilder::collectDependencies"))
+    exp = ("std::set<symbol_t> symbols; expr.collect_possible_reads(symbols); while (!symbols.empty()) { symbol_t s = *symbols.begin(); "
+           "symbols.erase(s); if (dependencies.find(s) == dependencies.end()) { dependencies.insert(s); if (auto d = s.get_data(); d) { "
+           "if (auto t = s.get_type(); !(t.is_function() || t.is_function_external())) { variable_t* v = static_cast<variable_t*>(d); "
+           "v->init.collect_possible_reads(symbols); } else { } } } }")
+    if body != exp:
+        raise TranslateError("StatementBuilder::collectDependencies changed: %r" % body)
+    tc = read(repo, "src/typechecker.cpp")
+    vp = norm(function_body(tc, r"void\s+TypeChecker::visitProcess\s*\(\s*instance_t&\s*process\s*\)\s*\{", "TypeChecker::visitProcess"))
+    if ("if (process.restricted.find(parameter) != process.restricted.end()) { handleError(process.uid, "
+            "\"$Free_process_parameters_must_not_be_used_directly_or_indirectly_in_\" \"an_array_declaration_or_select_expression\"); }") not in vp:
+        raise TranslateError("TypeChecker::visitProcess no longer rejects restricted free parameters: %r" % vp)
+    return False   # functions are not followed ("TODO; fixme")
+
+
 def tr_sites(tc):
     """Every handleError(..., "$X") with X ending in _must_be_side-effect_free or = Must_be_computable_at_compile_time,
     together with the (normalised) condition of the innermost enclosing `if`/`else if` -- as (message, condition-kind)."""
@@ -530,6 +549,7 @@ def translate(repo="/repo", kind_names=None):
     vf = tr_visit_function(tc)
     ctc_random = tr_ctc(tc)
     sites = tr_sites(tc)
+    deps_follow = tr_restricted(repo)
     if kind_names is not None:
         for k in [k for k, _ in gs] + w_lhs + w_call + r_call + r_rnd:
             if k not in kind_names:
@@ -583,6 +603,7 @@ def translate(repo="/repo", kind_names=None):
           "  visit := genVisit"]
     for k, v in vf.items():
         L.append("  %s := %s" % (k, b(v)))
+    L += ["  depsFollowFunctions := " + b(deps_follow)]
     L += ["  sites := " + lean_list(["(.%s, %d)" % (s, n) for s, n in sorted(cnt.items())], 4),
           "  unrecognisedSites := %d" % other, "",
           "/-- statement classes found in include/utap/statement.h (all modelled; the translator fails closed otherwise) -/",
